@@ -163,8 +163,10 @@ func (h *killedHandler) handleRestart() {
 	} else {
 		h.ctx.restarting = nil
 		atomic.StoreInt32(&h.ctx.state, running)
-		h.ctx.tell(true, h.ctx.parent, new(vivid.OnLaunch))
+		// 新的生命周期以 OnLaunch 开始：恢复邮箱后直接交给自身处理（当前即邮箱的处理协程），
+		// 确保其先于任何已在邮箱中排队的消息（包括后续的重启、终止指令）；若 OnLaunch 处理失败，邮箱会被再次挂起并交由监管处理
 		h.ctx.mailbox.Resume()
+		h.ctx.HandleEnvelop(mailbox.NewEnvelop(true, h.ctx.parent, h.ctx.ref, new(vivid.OnLaunch)))
 
 		// 通知事件流
 		eventStream := h.ctx.EventStream()
